@@ -1,5 +1,5 @@
 import PytaskProofs.Lemmas.EngineScratch
-import PytaskProofs.Lemmas.EngineExit
+import PytaskProofs.Lemmas.StateExit
 import PytaskProofs.Lemmas.EngineExample
 /-!
 # C02 — an incremental build leaves what a from-scratch build would leave
